@@ -42,7 +42,8 @@ Definition c_option_coverage : list (string * coverage) :=
   [("target_endianness", Proved); ("omit_float_serialization_support", ProvedGate); ("enable_serialization_asserts", Proved);
    ("enable_override_variable_array_capacity", CodecPairwise ["false"; "true"]);
        (* built WITHOUT any -D..._ARRAY_CAPACITY_ macro: the up-front capacity test stays compiled in.  With a reduced capacity macro
-          AND assertions the real code aborts on a valid call (audit3 D3, handled by C04): outside the domain of C03's statements *)
+          AND assertions the pre-f2f61d1 code aborted on a valid call (audit3 D3; fixed, and covered for every option combination by
+          Properties/C04.v c04_asserts_option): outside the domain of C03's statements *)
    ("cast_format", CodecDefaultOnly)]%string.
        (* renders the saturation bounds / casts of _serialize_integer/_float through the `literal` filter; what the default renders is
           C05's literal theorem; a custom format string is never built *)
